@@ -10,8 +10,8 @@ import vrun
 from props import _nfamily
 from common import cerberus
 
-LEVEL = "translation_validation"
-COQ_FILES = ["theories/Model/Normalize.v"]
+LEVEL = "proof"
+COQ_FILES = ["theories/Model/Normalize.v", "theories/Model/FactsOk.v", "theories/Proofs/NormalizeProofs.v", "theories/Properties/C02.v"]
 FACT_GROUPS = ["F11", "F6", "F8"]
 ALLOWED_AXIOMS = []
 TRUSTED_BASE = _nfamily.BASE_TRUSTED
